@@ -20,6 +20,8 @@ only exists under cfg(debug_assertions) / inside debug_assert! (or only without 
 script describes neither compiler setting but the source.  Stream names, violations and replays carry the profile.
 io_uring: `setup_io_uring` and `drop(ring)` (Drop of IoUring as an operation owning the ring fd) are scenarios too, with
 and without IORING_FEAT_SINGLE_MMAP; descriptors only — the mappings' balance is C18's.
+Receiving descriptors: `recvmsg_rights_<k>_<len>` — the peer sent k descriptors (SCM_RIGHTS), the operation is rusl recvmsg with
+a control buffer of <len> bytes + control_messages(); what the kernel installed and the iterator did not yield is a leak.
 """
 import json
 
@@ -231,6 +233,31 @@ SCEN = {
     "io_uring_setup": ("io_uring_setup", steps_single), "io_uring_setup_nosingle": ("io_uring_setup", steps_single),
     "io_uring_drop": ("io_uring_drop", steps_single), "io_uring_drop_nosingle": ("io_uring_drop", steps_single),
 }
+
+
+def recv_bufs(k):
+    """control buffer sizes for k passed descriptors: none, a bare header, one descriptor short (MSG_CTRUNC), exactly
+    CMSG_LEN(4k) (NOT a multiple of 8 for odd k), CMSG_SPACE(4k), large"""
+    ln = 16 + 4 * k
+    return sorted({0, 16, ln - 4, ln, (ln + 7) & ~7, 64})
+
+
+def steps_recv(k, buflen):
+    """KERNEL CONTRACT (net/core/scm.c scm_detach_fds): of the k descriptors of the message the kernel installs as many as
+    the control buffer has room for behind one header, (len-16)/4, and as the table has room for (`@lim<j>`)"""
+    def f(tr, out, ents, case):
+        n = min(k, max(0, (buflen - 16) // 4))
+        e = entry_of(case)
+        if e.startswith("lim"):
+            n = min(n, int(e[3:]))
+        return "".join("1" if n >= i else "0" for i in range(1, min(n + 1, 4) + 1))
+    f.wants_case = True
+    return f
+
+
+for _k in (1, 2, 3, 4):
+    for _b in recv_bufs(_k):
+        SCEN["recvmsg_rights_%d_%d" % (_k, _b)] = ("recvmsg_rights", steps_recv(_k, _b))
 SPAWN = {k for k in SCEN if k.startswith("spawn_")}
 
 
@@ -278,6 +305,11 @@ def judge(case, out):
     d = parse(out)
     if d.get("out") == "panic":
         return "panic: the operation panicked"
+    if (int(d["leaked"]) or int(d["residue"])) and scen_of(case).startswith("recvmsg_rights_"):
+        k, ln = scen_of(case).split("_")[2:4]
+        return ("leak: the peer sent %s descriptor(s), control buffer of %s bytes: the kernel installed the numbers [%s] in the table, "
+                "control_messages() handed %s of them to the caller; %s still open with nobody knowing the number"
+                % (k, ln, d.get("nums", "?"), d["handed"], max(int(d["leaked"]), int(d["residue"]))))
     if int(d["leaked"]) or int(d["residue"]):
         return "leak: %s descriptor(s) opened by the operation are still open and were not handed to the caller" % max(int(d["leaked"]), int(d["residue"]))
     if int(d["dangling"]):
@@ -307,7 +339,10 @@ def model_lines(case, out):
     script, stepf = SCEN[name]
     tr = toks(d["trace"])
     ans = ",".join(r for _, r, _ in tr) or "."
-    steps = stepf(tr, d["out"], d.get("ents", "-")) or "."
+    if getattr(stepf, "wants_case", False):
+        steps = stepf(tr, d["out"], d.get("ents", "-"), case) or "."
+    else:
+        steps = stepf(tr, d["out"], d.get("ents", "-")) or "."
     # the caller's view runs against a kernel table: the numbers open at entry, the numbers the operation was given
     lines = ["K cur %s a=%s s=%s t=%s own=%s" % (script, ans, steps, d["tab"], d["own"])]
     ch = [t for t in toks(d.get("child", "-")) if t[0] not in ("exit", "exit_group", "returned")]
@@ -544,7 +579,8 @@ def sweep(ctx, exe, drv, profile, full):
 
 def run(ctx):
     ctx.rule = ("cases = every scenario (%d: each public descriptor-creating operation, incl. invalid arguments; io_uring set-up and "
-                "drop(ring) with and without IORING_FEAT_SINGLE_MMAP) x every index k of the "
+                "drop(ring) with and without IORING_FEAT_SINGLE_MMAP; receiving k = 1..4 descriptors over a unix socket with control buffers of "
+                "0 / 16 / CMSG_LEN-4 / CMSG_LEN / CMSG_SPACE / 64 bytes) x every index k of the "
                 "system calls of its fault-free run x errno in {EINTR,EAGAIN,EMFILE,ENOMEM,EACCES,EIO} + call-specific "
                 "{EINPROGRESS; ENOENT,EEXIST} + forced values (0, short) for read/write/ppoll/getdents64/copy_file_range, then a second "
                 "fault at every call of the NEW path a first fault opened (thorough: a third), and for spawn every call of the forked "
@@ -577,6 +613,11 @@ def run(ctx):
         "MAPPINGS (each unmapped exactly once, with its length) are C18's and carry no effect in these scripts; a forced munmap failure "
         "is not executed (the mapping stays, no descriptor involved).  The recursion of remove_all is unrolled to depth 3 with the "
         "inductive step as a summary",
+        "receiving descriptors (recvmsg_rights_<k>_<len>): KERNEL CONTRACT assumed as the model's step oracle — of the k descriptors of one "
+        "SCM_RIGHTS message the kernel installs min(k, (controllen-16)/4, free numbers) and discards the rest (MSG_CTRUNC); checked on every "
+        "case against the harness's own parse of the control buffer the kernel wrote (casekit::scm_rights_of, independent of rusl's iterator) "
+        "and against the descriptor table.  The API side is rusl recvmsg + control_messages() with the caller taking every yielded descriptor; "
+        "not exercised: several control messages in one call, IORING_OP_RECVMSG, datagram sockets",
         "descriptor tables are read with fcntl(F_GETFD) over 0..255; the harness keeps its own channels on numbers >= 100 (result line: "
         "a dup of stdout at >= 240, never fd 1) and closes the chosen subset of {0,1,2} after the scenario is set up, right before the "
         "operation; a witness dup of every foreign descriptor is compared with its number afterwards by kcmp(KCMP_FILE) (identity of the "
